@@ -71,7 +71,12 @@ def run(plan):
         if plan.get("repeat"):
             # the same report again after the user changed attributes locally without applying them
             bodies = [b for hb in bodies for b in (hb, "scribble", hb)]
-        for hexbody in bodies:
+        steps = {int(k): v for k, v in plan.get("clock_steps", {}).items()}
+        for bi, hexbody in enumerate(bodies):
+            if bi in steps:
+                # the host's wall clock is stepped (NTP correction, manual change): reports are still reports
+                w.clock.jump(steps[bi])
+                w.fire("wall_clock_stepped_backwards" if steps[bi] < 0 else "wall_clock_stepped_forwards")
             if hexbody == "scribble":
                 ac.power_state = not ac.power_state
                 ac.target_temperature = 17.0 if ac.target_temperature != 17.0 else 29.5
@@ -138,7 +143,8 @@ def run(plan):
     res.take(w)
     res.add_fired(dev.fired)
     res.key = (plan.get("check_style"), with_msgid, bool(plan.get("non_custom_fan")), bool(plan.get("repeat")),
-               bool(plan.get("fixed_msg_id")), bool(plan.get("stale_first")), tuple(plan["bodies"]))
+               bool(plan.get("fixed_msg_id")), bool(plan.get("stale_first")), tuple(plan["bodies"]),
+               repr(sorted(plan.get("clock_steps", {}).items())))
     res.nontrivial = True
     return res
 
@@ -214,6 +220,9 @@ def space(tier):
         p["fixed_msg_id"] = (j % 2 == 1)
         if p["repeat"]:
             p["bodies"] = p["bodies"][:6]
+        if j % 5 == 2:
+            p["clock_steps"] = {str(rng.randrange(1, len(p["bodies"]))): rng.choice([-1.0, -3600.0, -86400.0 * 30, 7200.0, -0.01])
+                                for _ in range(rng.randint(1, 3))}
         return p
     sp.add("random", 2400 if tier == "quick" else 400_000, f_rand)
     return sp
